@@ -10,6 +10,7 @@ import (
 	"encoding/base64"
 	"encoding/json"
 	"fmt"
+	"runtime"
 	"sort"
 	"strings"
 	"unicode/utf8"
@@ -62,6 +63,10 @@ const (
 	FMergeMerge  = "MergeMergePatches"
 	FCreate      = "CreateMergePatch"
 	FEqual       = "Equal"
+	// FGC is not a library call: two garbage collections, which empty every
+	// sync.Pool, so that the next calls meet cold pooled decoder/encoder states
+	// in the middle of a history.
+	FGC = "(runtime.GC twice)"
 )
 
 // Call is one API call; A and B index the buffer pool. For the Apply family
@@ -82,6 +87,9 @@ func (c Call) Sig(bufs []Text) string {
 	var sb strings.Builder
 	sb.WriteString(c.Fn)
 	sb.WriteByte(0)
+	if c.Fn == FGC {
+		return sb.String()
+	}
 	if c.Fn != FDecode && c.Fn != FAccessors {
 		sb.Write(bufs[c.A])
 	}
@@ -442,6 +450,10 @@ func exec(api API, c Call, a, b []byte, patch any, patchErr error, oc *OptsCache
 		return outRes(api.Create(a, b))
 	case FEqual:
 		return Result{Bool: api.Equal(a, b)}
+	case FGC:
+		runtime.GC()
+		runtime.GC()
+		return Result{}
 	}
 	return Result{Panic: "unknown function " + c.Fn}
 }
@@ -463,6 +475,8 @@ func stripPtrs(s string) string {
 	}
 	return sb.String()
 }
+
+func OneIn25(t *rapid.T) bool { return gen.Uniform(t, 0, 24, "gc") == 0 }
 
 // NeedsPatch: the call uses a decoded Patch taken from buffer B.
 func (c Call) NeedsPatch() bool {
@@ -593,6 +607,18 @@ var fnWeights = []string{
 // DrawCall draws one call over the pool: arguments mostly in their intended
 // roles, sometimes any buffer in any role (calls that fail).
 func DrawCall(t *rapid.T, p Pool, opts []lib.Options) Call {
+	return drawCall(t, p, opts, false)
+}
+
+// DrawCallGC is DrawCall for sequential histories: one call in 25 is FGC.
+func DrawCallGC(t *rapid.T, p Pool, opts []lib.Options) Call {
+	return drawCall(t, p, opts, true)
+}
+
+func drawCall(t *rapid.T, p Pool, opts []lib.Options, gc bool) Call {
+	if gc && OneIn25(t) {
+		return Call{Fn: FGC}
+	}
 	pick := func(role []int, l string) int {
 		if len(role) == 0 || gen.OneIn(t, 8, l+"any") {
 			return gen.Uniform(t, 0, len(p.Bufs)-1, l+"i")
